@@ -229,11 +229,24 @@ def run_case(case, rng):
                    lambda: f"states {states!r} terminal {o.terminal!r} max_steps={o.max_steps}")
         return nsteps
 
+    # sometimes the option runs on a view of the base MDP in which one non-terminal state offers NO action (a dead end,
+    # as in msdm's own DeadEndBandit) although its transitions are defined and the option's policy acts there: the
+    # option must walk on to one of ITS terminal states (or hit its step limit), not stop there silently
+    run_mdp = mdp
+    dead_cands = [s_ for s_ in S if s_ not in terminal]
+    if dead_cands and rng.random() < 0.3:
+        dead = rng.choice(dead_cands)
+
+        class _DeadEndView(Bd.SpecMDP):
+            def actions(self, s_):
+                return () if s_ == dead else Bd.SpecMDP.actions(self, s_)
+        run_mdp = _DeadEndView(sp)
+        case.count("option_runs_on_dead_end_view")
     for start in rng.sample(S, min(len(S), 3)):
         seed = rng.randrange(2 ** 31)
         case.count("option_runs")
         try:
-            sim = opt.run_on(mdp, initial_state=start, rng=_random.Random(seed))
+            sim = opt.run_on(run_mdp, initial_state=start, rng=_random.Random(seed))
             raised = False
         except AlgorithmException:
             raised = True
@@ -252,7 +265,7 @@ def run_case(case, rng):
             case.count("option_runs_raised")
             big = SimpleOption("opt-big", fpol, terminal, initial, 400)
             try:
-                sim2 = big.run_on(mdp, initial_state=start, rng=_random.Random(seed))
+                sim2 = big.run_on(run_mdp, initial_state=start, rng=_random.Random(seed))
                 n2 = len(sim2.steps) - 1
                 case.check(n2 >= max_steps - 1, "option:raised-although-goal-reachable-within-limit",
                            f"same seed with a larger cap needs {n2} steps; max_steps={max_steps}")
